@@ -4010,3 +4010,24 @@ def r143(ctx: Ctx) -> RuleReport:
                 rep.undecided(key, fi.loc(c), 'the data is not visibly sorted by the grouping key')
     rep.analysed['sites'] = n_sites
     return rep
+
+
+# ---------------------------------------------------------------------------------------------
+@rule('R145', 'text on its way between the notation and the graph is never case-folded (lower / upper / casefold / title / capitalize / swapcase)')
+def r145(ctx: Ctx) -> RuleReport:
+    rep = RuleReport('R145', r145.title, floor=0)
+    n = 0
+    MODS = ('penman.surface', 'penman._parse', 'penman._lexer', 'penman.layout', 'penman.codec', 'penman._format', 'penman.constant', 'penman.graph',
+            'penman.transform', 'penman.model', 'penman.epigraph')
+    for fi in ctx.repo.all_functions():
+        if fi.module.name not in MODS and not getattr(ctx, '_is_probe', False):
+            continue
+        for c in walk_local(fi.node):
+            if isinstance(c, ast.Call) and isinstance(c.func, ast.Attribute) and c.func.attr in ('lower', 'upper', 'casefold', 'title', 'capitalize', 'swapcase') and not c.args \
+                    and not isinstance(c.func.value, ast.Constant):
+                n += 1
+                rep.violation(f'{fi.fq}: `{norm(c)[:50]}`', fi.loc(c), f'`{norm(c)[:50]}` changes the case of text that is read from, or written to, the notation: an alignment prefix, a role, '
+                              f'a symbol or a variable that differs only in case comes back changed - "(a / alpha~E.1)" is written again as "(a / alpha~e.1)", so encode(decode(s)) is '
+                              f'not the text that was read')
+    rep.analysed['case_changing_calls'] = n
+    return rep
